@@ -27,6 +27,9 @@ pub enum Start {
     Garbage(Vec<u8>),
     /// Header written by a wipe that was never followed by a publication.
     Wiped { version: u16 },
+    /// A file that is not ours (wrong magic number) but whose other header fields and record
+    /// look valid: it decodes to publication `base`, which nobody published here.
+    Foreign { gen: u16, base: u64 },
     Valid { gen: u16, base: u64 },
     /// A writer died in the middle of publication base+1 after `words` words.
     ValidOdd { gen: u16, base: u64, words: usize },
@@ -39,6 +42,7 @@ impl Start {
             Start::NoDir => "nodir",
             Start::Garbage(_) => "garbage",
             Start::Wiped { .. } => "wiped",
+            Start::Foreign { .. } => "foreign",
             Start::Valid { .. } => "valid-even",
             Start::ValidOdd { .. } => "valid-odd",
         }
@@ -50,6 +54,7 @@ impl Start {
             Start::NoDir => json!({"kind":"nodir"}),
             Start::Garbage(b) => json!({"kind":"garbage","bytes":b}),
             Start::Wiped { version } => json!({"kind":"wiped","version":version}),
+            Start::Foreign { gen, base } => json!({"kind":"foreign","gen":gen,"base":base}),
             Start::Valid { gen, base } => json!({"kind":"valid-even","gen":gen,"base":base}),
             Start::ValidOdd { gen, base, words } => json!({"kind":"valid-odd","gen":gen,"base":base,"words":words}),
         }
@@ -61,6 +66,7 @@ impl Start {
             "nodir" => Start::NoDir,
             "garbage" => Start::Garbage(v["bytes"].as_array().unwrap().iter().map(|b| b.as_u64().unwrap() as u8).collect()),
             "wiped" => Start::Wiped { version: v["version"].as_u64().unwrap() as u16 },
+            "foreign" => Start::Foreign { gen: v["gen"].as_u64().unwrap() as u16, base: v["base"].as_u64().unwrap() },
             "valid-even" => Start::Valid { gen: v["gen"].as_u64().unwrap() as u16, base: v["base"].as_u64().unwrap() },
             "valid-odd" => Start::ValidOdd { gen: v["gen"].as_u64().unwrap() as u16, base: v["base"].as_u64().unwrap(), words: v["words"].as_u64().unwrap() as usize },
             k => panic!("unknown start kind {}", k),
@@ -85,6 +91,12 @@ impl Start {
             }
             Start::Garbage(b) => std::fs::write(path, b).unwrap(),
             Start::Wiped { version } => std::fs::write(path, segment_bytes(*version, 0, 0)).unwrap(),
+            Start::Foreign { gen, base } => {
+                let mut bytes = segment_bytes(1, *gen, *base);
+                bytes[0] ^= 0x5a;
+                bytes[5] ^= 0x01;
+                std::fs::write(path, bytes).unwrap()
+            }
             Start::Valid { gen, base } => std::fs::write(path, segment_bytes(1, *gen, *base)).unwrap(),
             Start::ValidOdd { gen, base, words } => {
                 let mut bytes = segment_bytes(1, *gen, *base);
